@@ -80,7 +80,7 @@ FLOORS = {
         'illegal_texts_len<=10': 3500, 'illegal:whitespace': 1100, 'illegal:underscore': 240,
         'illegal:plus-sign': 240, 'illegal:minus-sign': 240, 'illegal:decimal-point': 240,
         'illegal:radix-prefix': 600, 'illegal:digit-outside-base': 600, 'illegal:too-long': 2048,
-        'illegal:non-ascii-digit': 480, 'typed_cases': 375, 'ties': 650,
+        'illegal:non-ascii-digit': 480, 'typed_cases': 375, 'ties': 450,
     },
     'thorough': {
         'exh:bin-range-numbers': 1024, 'exh:bin-texts': 4095, 'exh:small-texts': 37448 + 69904,
@@ -139,7 +139,7 @@ class Case:
     def run_tie(self):
         if not self.tie or not self.calls:
             return
-        picks = sorted({h64(('pick', k, repr(self.case))) % len(self.calls) for k in range(3)})
+        picks = sorted({h64(('pick', k, repr(self.case))) % len(self.calls) for k in range(2)})
         for i in picks:
             name, args, lib = self.calls[i]
             if not all(_formula_safe(a) for a in args):
